@@ -162,6 +162,33 @@ func init() {
 	apiIntrinsics["vEqString"] = func(fr *frame, args []value) value {
 		return strEq(args[0].(sval), args[1].(sval))
 	}
+	// vProvable(c): true iff the path condition implies c (one validity
+	// query, no fork).  Natively: c itself.
+	apiIntrinsics["vProvable"] = func(fr *frame, args []value) value {
+		c := args[0].(*Term)
+		if c.IsConst() {
+			return c
+		}
+		if fr.r.feasibleAll(c) {
+			return mkBool(true)
+		}
+		return mkBool(false)
+	}
+	// vRetype(v, proto): v with the dynamic type of proto when both are
+	// pointers to types with identical underlying types (a local
+	// `type plain T` alias used inside an UnmarshalJSON hook), else nil.
+	apiIntrinsics["vRetype"] = func(fr *frame, args []value) value {
+		v, p := args[0].(iface), args[1].(iface)
+		if v.t == nil || p.t == nil {
+			return iface{}
+		}
+		vp, ok1 := v.t.Underlying().(*types.Pointer)
+		pp, ok2 := p.t.Underlying().(*types.Pointer)
+		if !ok1 || !ok2 || !types.Identical(vp.Elem().Underlying(), pp.Elem().Underlying()) {
+			return iface{}
+		}
+		return iface{t: p.t, v: v.v}
+	}
 	apiIntrinsics["vFact"] = func(fr *frame, args []value) value {
 		fr.r.facts[concreteString(args[0], "fact key")] = toStringPlain(args[1])
 		return nil
